@@ -305,4 +305,387 @@ theorem loop_xD (p : Prog) (norm : Str → Str) (cont : Bool) (c : Content) (nam
       · simp only [hsk, if_false] at hbodyP
         exact (hbodyP trivial).elim
 
+-- ---- containers ----------------------------------------------------------------------------------------------------------------
+
+mutual
+  /-- one element of a container body on the document tree, with the duplicate checks against the content `c` of the container -/
+  def xElemD (p : Prog) (norm : Str → Str) (cont : Bool) : Elem → St → Content → Int × St × Content
+    | .item nm v, s, c =>
+      if s.skip > 0 then (OK, dec (inc s), c)
+      else if cont && hasName norm c nm then
+        -- CIF_DUP_ITEMNAME: data-name callback, error callback, the value is parsed without item handler, nothing stored
+        (OK, dec (inc (report (note s (.dataname nm)) CIF_DUP_ITEMNAME)), c)
+      else
+        let it := scalarItemStep p cont nm v (inc (note s (.dataname nm)))
+        (it.1, dec it.2.1, match it.2.2 with | some (n, w) => c.setScalar n w | none => c)
+    | .loop names pks, s, c =>
+      let lp := xLoopD p norm cont c names pks (if s.skip ≤ 0 then note s (.keyword []) else s)
+      (lp.1, lp.2.1, match lp.2.2 with | some l => c.addLoop l | none => c)
+    | .frame code body, s, c =>
+      if !cont ∨ s.skip > 0 then
+        let st := contStartStep p false false code s
+        let ce := if st.1 ≠ OK then containerEnd p false false code st.1 st.2 .empty
+          else containerEnd p false false code (xElemsD p norm false body st.2 .empty).1 (xElemsD p norm false body st.2 .empty).2.1
+            (xElemsD p norm false body st.2 .empty).2.2
+        (ce.1, ce.2.1, c)
+      else
+        match findC norm c.frames code with
+        | some old =>
+          -- CIF_DUP_FRAMECODE: error callback, the existing frame is reopened
+          let st := contStartStep p true false old.code (report s CIF_DUP_FRAMECODE)
+          let ce := if st.1 ≠ OK then containerEnd p true false old.code st.1 st.2 ⟨old.frames, old.loops⟩
+            else containerEnd p true false old.code (xElemsD p norm true body st.2 ⟨old.frames, old.loops⟩).1
+              (xElemsD p norm true body st.2 ⟨old.frames, old.loops⟩).2.1 (xElemsD p norm true body st.2 ⟨old.frames, old.loops⟩).2.2
+          (ce.1, ce.2.1, { c with frames := replaceC norm c.frames code (.mk old.code ce.2.2.frames ce.2.2.loops) })
+        | none =>
+          let st := contStartStep p true false code s
+          let ce := if st.1 ≠ OK then containerEnd p true false code st.1 st.2 .empty
+            else containerEnd p true false code (xElemsD p norm true body st.2 .empty).1 (xElemsD p norm true body st.2 .empty).2.1
+              (xElemsD p norm true body st.2 .empty).2.2
+          (ce.1, ce.2.1, c.addFrame (.mk code ce.2.2.frames ce.2.2.loops))
+  def xElemsD (p : Prog) (norm : Str → Str) (cont : Bool) : List Elem → St → Content → Int × St × Content
+    | [], s, c => (OK, s, c)
+    | e :: es, s, c =>
+      if (xElemD p norm cont e s c).1 = OK then xElemsD p norm cont es (xElemD p norm cont e s c).2.1 (xElemD p norm cont e s c).2.2
+      else xElemD p norm cont e s c
+end
+
+/-- parse_container on a container body, into a container holding `c0` -/
+def xContD (p : Prog) (norm : Str → Str) (fc isBlock : Bool) (code : Str) (body : List Elem) (s : St) (c0 : Content) :
+    Int × St × Content :=
+  let st := contStartStep p fc isBlock code s
+  if st.1 ≠ OK then containerEnd p fc isBlock code st.1 st.2 c0
+  else containerEnd p fc isBlock code (xElemsD p norm fc body st.2 c0).1 (xElemsD p norm fc body st.2 c0).2.1
+    (xElemsD p norm fc body st.2 c0).2.2
+
+theorem xElemD_frame (p : Prog) (norm : Str → Str) (cont : Bool) (code : Str) (body : List Elem) (s : St) (c : Content) :
+    xElemD p norm cont (.frame code body) s c
+      = (if !cont ∨ s.skip > 0 then
+           ((xContD p norm false false code body s .empty).1, (xContD p norm false false code body s .empty).2.1, c)
+         else match findC norm c.frames code with
+           | some old =>
+             ((xContD p norm true false old.code body (report s CIF_DUP_FRAMECODE) ⟨old.frames, old.loops⟩).1,
+              (xContD p norm true false old.code body (report s CIF_DUP_FRAMECODE) ⟨old.frames, old.loops⟩).2.1,
+              { c with frames := replaceC norm c.frames code (.mk old.code
+                  (xContD p norm true false old.code body (report s CIF_DUP_FRAMECODE) ⟨old.frames, old.loops⟩).2.2.frames
+                  (xContD p norm true false old.code body (report s CIF_DUP_FRAMECODE) ⟨old.frames, old.loops⟩).2.2.loops) })
+           | none =>
+             ((xContD p norm true false code body s .empty).1, (xContD p norm true false code body s .empty).2.1,
+              c.addFrame (.mk code (xContD p norm true false code body s .empty).2.2.frames
+                (xContD p norm true false code body s .empty).2.2.loops))) := by
+  simp only [xElemD, xContD]
+
+def xBlocksD (p : Prog) (norm : Str → Str) (cif : Bool) : List Block → St → List Container → Int × St × List Container
+  | [], s, acc => (OK, s, acc)
+  | b :: bs, s, acc =>
+    if cif && decide (s.skip ≤ 0) then
+      match findC norm acc b.code with
+      | some old =>
+        let ce := xContD p norm true true old.code b.body (report s CIF_DUP_BLOCKCODE) ⟨old.frames, old.loops⟩
+        let acc1 := replaceC norm acc b.code (.mk old.code ce.2.2.frames ce.2.2.loops)
+        if ce.1 = OK then xBlocksD p norm cif bs ce.2.1 acc1 else (ce.1, ce.2.1, acc1)
+      | none =>
+        let ce := xContD p norm true true b.code b.body s .empty
+        let acc1 := acc ++ [.mk b.code ce.2.2.frames ce.2.2.loops]
+        if ce.1 = OK then xBlocksD p norm cif bs ce.2.1 acc1 else (ce.1, ce.2.1, acc1)
+    else
+      let ce := xContD p norm false true b.code b.body s .empty
+      if ce.1 = OK then xBlocksD p norm cif bs ce.2.1 acc else (ce.1, ce.2.1, acc)
+
+/-- parse_cif over the document, with the duplicate diagnostics -/
+def xDocD (p : Prog) (norm : Str → Str) (cif : Bool) (d : Doc) (s : St) : Int × St × List Container :=
+  if p s.n (.cifStart cif) = END then (OK, push s (.cifStart cif), []) else
+  let st := site p s (.cifStart cif) (some 1) (some 1)
+  if st.1 = OK then
+    let b := xBlocksD p norm cif d st.2 []
+    ((cifEndStep p cif b.1 b.2.1).1, (cifEndStep p cif b.1 b.2.1).2, b.2.2)
+  else ((cifEndStep p cif st.1 st.2).1, (cifEndStep p cif st.1 st.2).2, [])
+
+/-- one iteration of the element loop: a scalar item (skipped, duplicate or new) -/
+theorem stepD_item_x (p : Prog) (norm : Str → Str) (m : Int) (f : Nat) (cont isBlock : Bool) (nm : Str) (v : V) (Y : List Tok)
+    (s : St) (b : Bool) (c : Content) (hw : wfV v = true) (hf : szV v ≤ f) :
+    elemsLoopD p norm m (f + 1) cont isBlock (atb s (plain .name nm :: (valueToks v ++ Y)) b) c
+      = (if (xElemD p norm cont (.item nm v) s c).1 = OK then
+           elemsLoopD p norm m f cont isBlock (atb (xElemD p norm cont (.item nm v) s c).2.1 Y false) (xElemD p norm cont (.item nm v) s c).2.2
+         else ((xElemD p norm cont (.item nm v) s c).1, atb (xElemD p norm cont (.item nm v) s c).2.1 Y false,
+               (xElemD p norm cont (.item nm v) s c).2.2)) := by
+  simp only [elemsLoopD, nextToken_atb s (plain .name nm) _ b rfl, plain_ty, atb_skip, cur_atb, plain_text, xElemD]
+  by_cases h : s.skip > 0
+  · simp only [h, if_true, consume_atb, item_doc_skip p f cont v Y s false hw hf]
+  · simp only [h, if_false]
+    by_cases hd : (cont && hasName norm c nm) = true
+    · simp only [hd, if_true, note_atb, consume_atb, report_atb, item_doc_skip p f cont v Y _ false hw hf]
+    · simp only [hd, Bool.false_eq_true, if_false, note_atb, consume_atb, item_doc_named p f cont nm v Y _ false hw hf]
+      rfl
+
+/-- one iteration of the element loop: a loop -/
+theorem stepD_loop_x (p : Prog) (norm : Str → Str) (m : Int) (f : Nat) (cont isBlock : Bool) (names : List Str)
+    (pks : List (List V)) (F : Nat) (t : Tok) (rest : List Tok) (s : St) (b : Bool) (c : Content)
+    (hpre : t.pre = []) (hst : isStopper t.ty = true) (hn : names ≠ []) (hpk : pks ≠ [])
+    (hall : ∀ pk ∈ pks, pk ≠ [] ∧ pk.length = names.length ∧ ∀ v ∈ pk, wfV v = true ∧ szV v ≤ F)
+    (hf1 : names.length + 1 ≤ f) (hf2 : F + totLen pks + 1 ≤ f) :
+    ∃ t' b', elemsLoopD p norm m (f + 1) cont isBlock
+        (atb s (plain .loopKw [] :: (names.map (fun n => plain .name n) ++ ((pks.map valuesToks).flatten ++ t :: rest))) b) c
+      = (if (xElemD p norm cont (.loop names pks) s c).1 = OK then
+           elemsLoopD p norm m f cont isBlock (atb (xElemD p norm cont (.loop names pks) s c).2.1 (t :: rest) true)
+             (xElemD p norm cont (.loop names pks) s c).2.2
+         else ((xElemD p norm cont (.loop names pks) s c).1, atb (xElemD p norm cont (.loop names pks) s c).2.1 t' b',
+               (xElemD p norm cont (.loop names pks) s c).2.2)) := by
+  simp only [elemsLoopD, nextToken_atb s (plain .loopKw []) _ b rfl, plain_ty, atb_skip, cur_atb, plain_text, xElemD]
+  have hnote : (if s.skip ≤ 0 then note (atb s (plain .loopKw [] :: (names.map (fun n => plain .name n) ++
+        ((pks.map valuesToks).flatten ++ t :: rest))) true) (Ev.keyword []) else
+        atb s (plain .loopKw [] :: (names.map (fun n => plain .name n) ++ ((pks.map valuesToks).flatten ++ t :: rest))) true)
+      = atb (if s.skip ≤ 0 then note s (Ev.keyword []) else s)
+          (plain .loopKw [] :: (names.map (fun n => plain .name n) ++ ((pks.map valuesToks).flatten ++ t :: rest))) true := by
+    by_cases h : s.skip ≤ 0 <;> simp only [h, if_true, if_false, note_atb]
+  obtain ⟨t', b', e1, e2⟩ := loop_xD p norm cont c names pks F t rest (if s.skip ≤ 0 then note s (Ev.keyword []) else s) false f hpre hst
+    hn hpk hall hf1 hf2
+  simp only [hnote, consume_atb, e1]
+  refine ⟨t', b', ?_⟩
+  by_cases hok : (xLoopD p norm cont c names pks (if s.skip ≤ 0 then note s (Ev.keyword []) else s)).1 = OK
+  · obtain ⟨rfl, rfl⟩ := e2 hok
+    simp only [hok, if_true]
+    rfl
+  · simp only [hok, if_false]
+    rfl
+
+def StepFrameXD (p : Prog) (norm : Str → Str) (cont : Bool) : Prop :=
+  ∀ (code : Str) (body : List Elem) (Y : List Tok) (s : St) (b : Bool) (c : Content) (f : Nat),
+    wfElems false body = true → szElems body + 2 ≤ f →
+    ∃ t' b', elemsLoopD p norm 1 (f + 1) cont true (atb s (plain .frameHead code :: (elemsToks body ++ plain .frameTerm [] :: Y)) b) c
+      = (if (xElemD p norm cont (.frame code body) s c).1 = OK then
+           elemsLoopD p norm 1 f cont true (atb (xElemD p norm cont (.frame code body) s c).2.1 Y false)
+             (xElemD p norm cont (.frame code body) s c).2.2
+         else ((xElemD p norm cont (.frame code body) s c).1, atb (xElemD p norm cont (.frame code body) s c).2.1 t' b',
+               (xElemD p norm cont (.frame code body) s c).2.2))
+
+/-- the body of a container, up to the token that ends it or to the handler that stopped the parse -/
+theorem elemsD_x (p : Prog) (norm : Str → Str) (cont isBlock : Bool) (hframe : isBlock = true → StepFrameXD p norm cont) :
+    ∀ (es : List Elem) (t : Tok) (rest : List Tok) (s : St) (b : Bool) (c : Content) (fuel : Nat),
+      wfElems isBlock es = true → t.pre = [] → termOK isBlock t.ty → szElems es + 1 ≤ fuel →
+      ∃ t' b', elemsLoopD p norm 1 fuel cont isBlock (atb s (elemsToks es ++ t :: rest) b) c
+          = ((xElemsD p norm cont es s c).1, atb (xElemsD p norm cont es s c).2.1 t' b', (xElemsD p norm cont es s c).2.2)
+        ∧ ((xElemsD p norm cont es s c).1 = OK →
+            atb (xElemsD p norm cont es s c).2.1 t' b' = endState isBlock (xElemsD p norm cont es s c).2.1 t rest)
+  | [], t, rest, s, b, c, fuel, _, hpre, hterm, hf => by
+    obtain ⟨f, rfl⟩ : ∃ f, fuel = f + 1 := ⟨fuel - 1, by omega⟩
+    simp only [elemsToks, List.nil_append, elemsLoopD, nextToken_atb s t rest b hpre, xElemsD]
+    unfold termOK at hterm
+    cases isBlock with
+    | true =>
+      simp only [if_true] at hterm
+      refine ⟨t :: rest, true, ?_, fun _ => by simp [endState]⟩
+      rcases hterm with h | h <;> simp [h]
+    | false =>
+      simp only [Bool.false_eq_true, if_false] at hterm
+      exact ⟨rest, false, by simp [hterm, consume_atb], fun _ => by simp [endState]⟩
+  | e :: es, t, rest, s, b, c, fuel, hw, hpre, hterm, hf => by
+    obtain ⟨f, rfl⟩ : ∃ f, fuel = f + 1 := ⟨fuel - 1, by omega⟩
+    simp only [wfElems, Bool.and_eq_true] at hw
+    simp only [szElems] at hf
+    have hstT : isStopper t.ty = true := by
+      unfold termOK at hterm
+      cases isBlock <;> simp at hterm
+      · simp [hterm, isStopper]
+      · rcases hterm with h | h <;> simp [h, isStopper]
+    have ih := elemsD_x p norm cont isBlock hframe es t rest
+    have key : ∃ Y bY t1 b1, elemsLoopD p norm 1 (f + 1) cont isBlock (atb s (elemsToks (e :: es) ++ t :: rest) b) c
+        = (if (xElemD p norm cont e s c).1 = OK then
+             elemsLoopD p norm 1 f cont isBlock (atb (xElemD p norm cont e s c).2.1 Y bY) (xElemD p norm cont e s c).2.2
+           else ((xElemD p norm cont e s c).1, atb (xElemD p norm cont e s c).2.1 t1 b1, (xElemD p norm cont e s c).2.2))
+        ∧ Y = elemsToks es ++ t :: rest := by
+      cases e with
+      | item n v =>
+        simp only [szElem] at hf
+        refine ⟨_, false, elemsToks es ++ t :: rest, false, ?_, rfl⟩
+        simp only [elemsToks, elemToks_item, List.cons_append, List.append_assoc]
+        exact stepD_item_x p norm 1 f cont isBlock n v _ s b c (by simpa [wfElem] using hw.1) (by omega)
+      | loop ns pks =>
+        simp only [szElem] at hf
+        obtain ⟨hn, hpk, hall⟩ := loop_wf_all ns pks hw.1
+        obtain ⟨th, tl, hhead, hthpre, hthst⟩ := elems_head es t rest hpre hstT
+        obtain ⟨t1, b1, e1⟩ := stepD_loop_x p norm 1 f cont isBlock ns pks (sumSz pks) th tl s b c hthpre hthst hn hpk hall
+          (by omega) (by omega)
+        refine ⟨_, true, t1, b1, ?_, rfl⟩
+        simp only [elemsToks, elemToks_loop, List.cons_append, List.append_assoc, hhead]
+        exact e1
+      | frame code body =>
+        simp only [szElem] at hf
+        have hb : isBlock = true ∧ wfElems false body = true := by
+          simpa [wfElem] using hw.1
+        obtain ⟨hb1, hb2⟩ := hb
+        subst hb1
+        obtain ⟨t1, b1, e1⟩ := hframe rfl code body (elemsToks es ++ t :: rest) s b c f hb2 (by omega)
+        refine ⟨_, false, t1, b1, ?_, rfl⟩
+        simp only [elemsToks, elemToks_frame, List.cons_append, List.append_assoc, List.singleton_append]
+        exact e1
+    obtain ⟨Y, bY, t1, b1, hkey, rfl⟩ := key
+    rw [hkey]
+    simp only [xElemsD]
+    by_cases hok : (xElemD p norm cont e s c).1 = OK
+    · simp only [hok, if_true]
+      have hsz : szElems es + 1 ≤ f := by
+        cases e <;> simp only [szElem] at hf <;> omega
+      exact ih _ bY _ f hw.2 hpre hterm hsz
+    · simp only [hok, if_false]
+      exact ⟨t1, b1, rfl, fun h => h.elim⟩
+
+/-- a save frame after its `save_<code>` token, into a frame holding `c0` -/
+theorem frameD_x (p : Prog) (norm : Str → Str) (fc : Bool) (code : Str) (body : List Elem) (Y : List Tok) (s : St) (b : Bool)
+    (c0 : Content) (f : Nat) (hw : wfElems false body = true) (hf : szElems body + 1 ≤ f) :
+    ∃ t' b', parseContainerD p norm 1 (f + 1) fc false code (atb s (elemsToks body ++ plain .frameTerm [] :: Y) b) c0
+        = ((xContD p norm fc false code body s c0).1, atb (xContD p norm fc false code body s c0).2.1 t' b',
+           (xContD p norm fc false code body s c0).2.2)
+      ∧ ((xContD p norm fc false code body s c0).1 = OK → t' = Y ∧ b' = false) := by
+  simp only [parseContainerD, contStart_atb, xContD]
+  by_cases hst : (contStartStep p fc false code s).1 = OK
+  · simp only [hst, ne_eq, not_true_eq_false, if_false]
+    obtain ⟨t', b', e1, e2⟩ := elemsD_x p norm fc false (fun h => nomatch h) body (plain .frameTerm []) Y
+      (contStartStep p fc false code s).2 b c0 f hw rfl rfl hf
+    rw [e1]
+    simp only [containerEnd_atb]
+    refine ⟨t', b', rfl, fun h => ?_⟩
+    have h1 := containerEnd_ok_inv p _ _ _ _ _ _ h
+    have h2 := e2 h1
+    simp only [endState, Bool.false_eq_true, if_false] at h2
+    exact atb_inj h2
+  · simp only [hst, ne_eq, not_false_eq_true, if_true, containerEnd_atb]
+    exact ⟨_, _, rfl, fun h => absurd (containerEnd_ok_inv p _ _ _ _ _ _ h) hst⟩
+
+theorem step_frameD_x (p : Prog) (norm : Str → Str) (cont : Bool) : StepFrameXD p norm cont := by
+  intro code body Y s b c f hw hf
+  simp only [elemsLoopD, nextToken_atb s (plain .frameHead code) _ b rfl, plain_ty, atb_skip, cur_atb, plain_text,
+    consume_atb, xElemD_frame]
+  obtain ⟨g, rfl⟩ : ∃ g, f = g + 1 := ⟨f - 1, by omega⟩
+  by_cases h : ((!cont) = true ∨ s.skip > 0)
+  · simp only [h, if_true]
+    obtain ⟨t', b', e1, e2⟩ := frameD_x p norm false code body Y s false .empty g hw (by omega)
+    rw [e1]
+    refine ⟨t', b', ?_⟩
+    by_cases hok : (xContD p norm false false code body s .empty).1 = OK
+    · obtain ⟨rfl, rfl⟩ := e2 hok
+      simp only [hok, if_true]
+    · simp only [hok, if_false]
+  · have h10 : ¬ ((1 : Int) = 0) := by decide
+    simp only [h, if_false, h10, Bool.not_true, Bool.false_eq_true, and_false]
+    cases hfind : findC norm c.frames code with
+    | some old =>
+      simp only [report_atb, consume_atb]
+      obtain ⟨t', b', e1, e2⟩ := frameD_x p norm true old.code body Y (report s CIF_DUP_FRAMECODE) false ⟨old.frames, old.loops⟩ g hw (by omega)
+      rw [e1]
+      refine ⟨t', b', ?_⟩
+      by_cases hok : (xContD p norm true false old.code body (report s CIF_DUP_FRAMECODE) ⟨old.frames, old.loops⟩).1 = OK
+      · obtain ⟨rfl, rfl⟩ := e2 hok
+        simp only [hok, if_true]
+      · simp only [hok, if_false]
+    | none =>
+      obtain ⟨t', b', e1, e2⟩ := frameD_x p norm true code body Y s false .empty g hw (by omega)
+      rw [e1]
+      refine ⟨t', b', ?_⟩
+      by_cases hok : (xContD p norm true false code body s .empty).1 = OK
+      · obtain ⟨rfl, rfl⟩ := e2 hok
+        simp only [hok, if_true]
+      · simp only [hok, if_false]
+
+/-- a data block after its `data_<code>` token, into a block holding `c0` -/
+theorem blockD_x (p : Prog) (norm : Str → Str) (bc : Bool) (code : Str) (body : List Elem) (t : Tok) (rest : List Tok) (s : St)
+    (b : Bool) (c0 : Content) (f : Nat) (hw : wfElems true body = true) (hpre : t.pre = []) (hterm : t.ty = .blockHead ∨ t.ty = .end_)
+    (hf : szElems body + 1 ≤ f) :
+    ∃ t' b', parseContainerD p norm 1 (f + 1) bc true code (atb s (elemsToks body ++ t :: rest) b) c0
+        = ((xContD p norm bc true code body s c0).1, atb (xContD p norm bc true code body s c0).2.1 t' b',
+           (xContD p norm bc true code body s c0).2.2)
+      ∧ ((xContD p norm bc true code body s c0).1 = OK → t' = t :: rest ∧ b' = true) := by
+  simp only [parseContainerD, contStart_atb, xContD]
+  by_cases hst : (contStartStep p bc true code s).1 = OK
+  · simp only [hst, ne_eq, not_true_eq_false, if_false]
+    obtain ⟨t', b', e1, e2⟩ := elemsD_x p norm bc true (fun _ => step_frameD_x p norm bc) body t rest
+      (contStartStep p bc true code s).2 b c0 f hw hpre (by simpa [termOK] using hterm) hf
+    rw [e1]
+    simp only [containerEnd_atb]
+    refine ⟨t', b', rfl, fun h => ?_⟩
+    have h1 := containerEnd_ok_inv p _ _ _ _ _ _ h
+    have h2 := e2 h1
+    simp only [endState, if_true] at h2
+    exact atb_inj h2
+  · simp only [hst, ne_eq, not_false_eq_true, if_true, containerEnd_atb]
+    exact ⟨_, _, rfl, fun h => absurd (containerEnd_ok_inv p _ _ _ _ _ _ h) hst⟩
+
+theorem blocksD_x (p : Prog) (norm : Str → Str) (cif : Bool) : ∀ (d : Doc) (s : St) (b : Bool) (acc : List Container) (fuel : Nat),
+    wfDoc d = true → szDoc d + 1 ≤ fuel →
+    ∃ t' b', blocksLoopD p norm 1 cif fuel (atb s (blocksToks d ++ [plain .end_ []]) b) acc
+      = ((xBlocksD p norm cif d s acc).1, atb (xBlocksD p norm cif d s acc).2.1 t' b', (xBlocksD p norm cif d s acc).2.2)
+  | [], s, b, acc, fuel, _, hf => by
+    obtain ⟨f, rfl⟩ : ∃ f, fuel = f + 1 := ⟨fuel - 1, by omega⟩
+    exact ⟨[plain .end_ []], true, by simp [blocksToks, blocksLoopD, nextToken_atb s (plain .end_ []) [] b rfl, xBlocksD]⟩
+  | blk :: bs, s, b, acc, fuel, hw, hf => by
+    obtain ⟨f, rfl⟩ : ∃ f, fuel = f + 1 := ⟨fuel - 1, by omega⟩
+    simp only [szDoc] at hf
+    simp only [wfDoc, List.all_cons, Bool.and_eq_true] at hw
+    obtain ⟨t, rest, hhead, hpre, hterm⟩ := blocks_head bs
+    have htoks : blocksToks (blk :: bs) ++ [plain .end_ []]
+        = plain .blockHead blk.code :: (elemsToks blk.body ++ (t :: rest)) := by
+      rw [← hhead]; simp [blocksToks]
+    rw [htoks]
+    simp only [blocksLoopD, nextToken_atb s (plain .blockHead blk.code) _ b rfl, plain_ty, atb_skip, cur_atb, plain_text,
+      consume_atb, xBlocksD]
+    obtain ⟨g, rfl⟩ : ∃ g, f = g + 1 := ⟨f - 1, by omega⟩
+    have hbs : wfDoc bs = true := by simpa [wfDoc] using hw.2
+    by_cases hbc : (cif && decide (s.skip ≤ 0)) = true
+    · simp only [hbc, if_true]
+      cases hfind : findC norm acc blk.code with
+      | some old =>
+        simp only [report_atb, consume_atb]
+        obtain ⟨t', b', e1, e2⟩ := blockD_x p norm true old.code blk.body t rest (report s CIF_DUP_BLOCKCODE) false
+          ⟨old.frames, old.loops⟩ g hw.1 hpre hterm (by omega)
+        rw [e1]
+        by_cases hok : (xContD p norm true true old.code blk.body (report s CIF_DUP_BLOCKCODE) ⟨old.frames, old.loops⟩).1 = OK
+        · obtain ⟨rfl, rfl⟩ := e2 hok
+          simp only [hok, if_true]
+          rw [← hhead]
+          exact blocksD_x p norm cif bs _ true _ (g + 1) hbs (by omega)
+        · simp only [hok, if_false]
+          exact ⟨t', b', rfl⟩
+      | none =>
+        obtain ⟨t', b', e1, e2⟩ := blockD_x p norm true blk.code blk.body t rest s false .empty g hw.1 hpre hterm (by omega)
+        rw [e1]
+        by_cases hok : (xContD p norm true true blk.code blk.body s .empty).1 = OK
+        · obtain ⟨rfl, rfl⟩ := e2 hok
+          simp only [hok, if_true]
+          rw [← hhead]
+          exact blocksD_x p norm cif bs _ true _ (g + 1) hbs (by omega)
+        · simp only [hok, if_false]
+          exact ⟨t', b', rfl⟩
+    · simp only [hbc, Bool.false_eq_true, if_false]
+      obtain ⟨t', b', e1, e2⟩ := blockD_x p norm false blk.code blk.body t rest s false .empty g hw.1 hpre hterm (by omega)
+      rw [e1]
+      by_cases hok : (xContD p norm false true blk.code blk.body s .empty).1 = OK
+      · obtain ⟨rfl, rfl⟩ := e2 hok
+        simp only [hok, if_true]
+        rw [← hhead]
+        exact blocksD_x p norm cif bs _ true _ (g + 1) hbs (by omega)
+      · simp only [hok, if_false]
+        exact ⟨t', b', rfl⟩
+
+/-- **the parse with the duplicate diagnostics is the structural interpreter, for EVERY program** -/
+theorem docD_x (p : Prog) (norm : Str → Str) (cif : Bool) (d : Doc) (fuel : Nat) (hw : wfDoc d = true) (hf : szDoc d + 1 ≤ fuel) :
+    (parseCifD p norm 1 cif fuel (St.init (tokensOf d))).1 = (xDocD p norm cif d (St.init [])).1
+    ∧ (parseCifD p norm 1 cif fuel (St.init (tokensOf d))).2.1.log = (xDocD p norm cif d (St.init [])).2.1.log
+    ∧ (parseCifD p norm 1 cif fuel (St.init (tokensOf d))).2.2 = (xDocD p norm cif d (St.init [])).2.2 := by
+  have hinit : St.init (tokensOf d) = atb (St.init []) (blocksToks d ++ [plain .end_ []]) false := rfl
+  unfold parseCifD xDocD
+  rw [hinit]
+  simp only [atb_n]
+  by_cases hend : p (St.init []).n (.cifStart cif) = END
+  · simp only [hend, if_true]
+    exact ⟨trivial, rfl, trivial⟩
+  · simp only [hend, if_false, site_atb]
+    by_cases hok : (site p (St.init []) (.cifStart cif) (some 1) (some 1)).1 = OK
+    · simp only [hok, if_true]
+      obtain ⟨t', b', e1⟩ := blocksD_x p norm cif d (site p (St.init []) (.cifStart cif) (some 1) (some 1)).2 false [] fuel hw hf
+      rw [e1]
+      simp only [cifEnd_atb]
+      exact ⟨trivial, rfl, trivial⟩
+    · simp only [hok, if_false, cifEnd_atb]
+      exact ⟨trivial, rfl, trivial⟩
+
 end CifModel.Lemmas.ParseCB
